@@ -272,6 +272,7 @@ type Ctx struct {
 	decl   map[string]bool
 	quant  int // > 0 while a term under a quantifier is being built: nothing mentioning bound variables may be emitted
 	qfacts [][]string // typing facts about terms under the binder, per open quantifier
+	globalQ []qInst   // universally quantified facts asserted unconditionally (append / copy axioms, preservation)
 }
 
 func NewCtx() *Ctx { return &Ctx{decl: map[string]bool{}} }
@@ -348,6 +349,21 @@ func (c *Ctx) Assert(t Term) {
 		return // facts about terms under a binder are dropped (weaker assumptions: sound)
 	}
 	c.lines = append(c.lines, "(assert "+t.S+")")
+	c.noteGlobal(t.S)
+}
+
+// noteGlobal records an asserted fact of the shape (forall ((|q!..| S)) body) or (=> g (forall ...)) for instantiation.
+func (c *Ctx) noteGlobal(f string) {
+	if !strings.Contains(f, "(forall ((|q!") {
+		return
+	}
+	guard := ""
+	if op, args, ok := topArgs(f); ok && op == "=>" && len(args) == 2 {
+		guard, f = args[0], args[1]
+	}
+	if bv, sort, body, ok := parseForall(f); ok {
+		c.globalQ = append(c.globalQ, qInst{guard: guard, bv: bv, sort: sort, body: body, line: len(c.lines) - 1})
+	}
 }
 
 func (c *Ctx) Mark() int { return len(c.lines) }
